@@ -206,6 +206,11 @@ fn alphabet() -> Vec<O> {
     a.push(O::SetEmissions { index: 0, rate: ((86_401u128 << 64) + 86_399) / 86_400, v2: true });
     a.push(O::SetEmissions { index: 0, rate: ((86_401u128 << 64) + 86_399) / 86_400, v2: false });
     a.push(O::SetEmissions { index: 1, rate: RATE_BIG, v2: true });
+    // re-setting the rate already in force, and lowering it, through the other handler: once collects have drained the vault below a
+    // day of it these must be refused too (the vault was only checked when the rate was first set)
+    a.push(O::SetEmissions { index: 0, rate: RATE_1, v2: false });
+    a.push(O::SetEmissions { index: 0, rate: RATE_1 / 2, v2: false });
+    a.push(O::SetEmissions { index: 0, rate: RATE_1 / 2, v2: true });
     a.push(O::InitReward { index: 1, v2: true });
     a.push(O::Base(Op::Inc { pos: 0, liq: stdworlds::BIG, v2: true }));
     a.push(O::Base(Op::Dec { pos: 0, part: Part::All, v2: false }));
